@@ -12,6 +12,7 @@ import threading
 _real_timer = threading.Timer
 _lock = threading.Lock()
 _timers: list = []
+_started: list = []   # (kind, owner) of every timer ever started: lets a monitor count attempts, not only pending timers
 _seq = 0
 now = 0.0
 
@@ -41,6 +42,7 @@ class VirtualTimer:
             self.started = True
             self.due = now + self.interval
             _timers.append(self)
+            _started.append((self.kind, getattr(self.function, "__self__", None)))
 
     def cancel(self):
         with _lock:
@@ -80,6 +82,12 @@ def pending(kind=None, owner=None):
     return sorted(out, key=lambda t: (t.due, t.seq))
 
 
+def started_count(kind, owner=None):
+    """How many timers of this kind (and owner) were ever started, fired or cancelled ones included."""
+    with _lock:
+        return sum(1 for k, o in _started if k == kind and (owner is None or o is owner))
+
+
 def fire(timer, wait=False, name=None):
     """Expire one timer now: runs its function in a new thread. Returns the thread (None if not pending)."""
     global now
@@ -102,4 +110,5 @@ def reset():
     global now
     with _lock:
         _timers.clear()
+        _started.clear()
         now = 0.0
